@@ -31,6 +31,22 @@ Issue(p, what) == <<p, what>>
 V(k, c) == [k |-> k, c |-> c]
 WrapVerdict(x, h) == IF x = h THEN V("exec", h) ELSE IF x = 9 THEN V("unconv", 0) ELSE V("rej", x)
 
+\* In "self" mode (O.self = TRUE: exhaustive model checking, scenario generation) the observed
+\* decision IS the prescribed one; RejectedCode is the specification's own code for batches the
+\* implementation drops silently.
+RejectedCode == -6
+SelfHeld(strict, prev, h) ==
+  IF strict.k = "exec" THEN h
+  ELSE IF strict.k \in {"replay", "unknown"} THEN prev
+  ELSE IF strict.k \in {"unauth", "pegconv"} THEN -2
+  ELSE IF strict.k = "unconv" THEN RejectedCode
+  ELSE strict.c
+SelfArrival(strict, prev, h) ==
+  IF strict.k = "exec" THEN h
+  ELSE IF strict.k \in {"ignore", "replay", "dup", "unknown"} THEN prev
+  ELSE IF strict.k = "hold" THEN 0
+  ELSE strict.c
+
 \* ------------------------------------------------------------------ held batches
 HeldStrict(acc, e, h, rates, avgs) ==
   IF h >= Act("V20") /\ HasPegConv(e) THEN V("pegconv", -2)
@@ -69,8 +85,9 @@ HeldIssues(strict, prev, obs, e, h) ==
 \* acc = [bal, st, rel, iss, to, taint]; to : hash -> converted amounts of executions done in this block
 ProcHeld(acc, e, h, rates, avgs, O) ==
   LET prev == StatusOf(acc.st, e.hash)
-      obs  == IF e.hash \in DOMAIN O.exec THEN O.exec[e.hash] ELSE Absent
       strict == HeldStrict(acc, e, h, rates, avgs)
+      obs  == IF O.self THEN SelfHeld(strict, prev, h)
+              ELSE IF e.hash \in DOMAIN O.exec THEN O.exec[e.hash] ELSE Absent
       iss  == HeldIssues(strict, prev, obs, e, h)
       doExec == obs = h /\ prev # h /\ InUniverse(e)
       x == IF doExec THEN ExecBatch(acc.bal, <<>>, e, h, rates, avgs, 1) ELSE [bal |-> acc.bal, to |-> <<>>]
@@ -163,9 +180,11 @@ ArrivalIssues(strict, prev, prevRows, obs, obsRows, e, h) ==
 ProcArrival(acc, e, h, rates, avgs, ratedNow, O) ==
   LET prev == StatusOf(acc.st, e.hash)
       prevRows == IF e.hash \in DOMAIN acc.st THEN acc.st[e.hash].rows ELSE 0
-      obs  == IF e.hash \in DOMAIN O.exec THEN O.exec[e.hash] ELSE Absent
-      obsRows == IF e.hash \in DOMAIN O.rows THEN O.rows[e.hash] ELSE 0
       strict == ArrivalStrict(acc, e, h)
+      obs  == IF O.self THEN SelfArrival(strict, prev, h)
+              ELSE IF e.hash \in DOMAIN O.exec THEN O.exec[e.hash] ELSE Absent
+      obsRows == IF O.self THEN (IF obs = Absent THEN 0 ELSE 1)
+                 ELSE IF e.hash \in DOMAIN O.rows THEN O.rows[e.hash] ELSE 0
       iss == ArrivalIssues(strict, prev, prevRows, obs, obsRows, e, h)
       doExec == obs = h /\ prev # h /\ InUniverse(e) /\ (HasConv(e) => ratedNow)
       x == IF doExec THEN ExecBatch(acc.bal, <<>>, e, h, rates, avgs, 1) ELSE [bal |-> acc.bal, to |-> <<>>]
@@ -239,7 +258,8 @@ ApplyBlock(S, in, O) ==
       \* stages 3-4: grading verdict and rates, from the committed state S
       R == RatesOf(S, in)
       sprIdx == SprWinnerIdx(S, in)
-      rIss == (IF R.rated # O.rated
+      rIss == IF O.self THEN {} ELSE
+              (IF R.rated # O.rated
                  THEN {Issue("C12", <<"block rated/unrated disagrees with the winning records", h, R.rated, O.rated>>)}
                  ELSE IF R.rated /\ R.r # O.rates
                       THEN {Issue("C12", <<"recorded rates differ from the combined winner rates", h,
@@ -248,8 +268,8 @@ ApplyBlock(S, in, O) ==
                       THEN {Issue("GEN", <<"oracle graded with the wrong OPR version", h>>)} ELSE {})
               \cup (IF in.spr.present /\ h >= Act("V20") /\ in.spr.gradeVer # SPRGraderVersion(h)
                       THEN {Issue("GEN", <<"oracle graded with the wrong SPR version", h>>)} ELSE {})
-      ratedNow == O.rated                       \* continue from the observed decision
-      rates == O.rates
+      ratedNow == IF O.self THEN R.rated ELSE O.rated      \* continue from the observed decision
+      rates == IF O.self THEN R.r ELSE O.rates
       S3 == [S EXCEPT !.bal = b2, !.rates = IF ratedNow THEN (h :> rates) @@ S.rates ELSE S.rates]
       \* stage 5: holder staking
       snapNow == IsSnapshot(h)
@@ -278,11 +298,11 @@ ApplyBlock(S, in, O) ==
       b13 == IF DevPayoutDue(h) THEN DevStage(b12, h, 1) ELSE b12
       \* staking dust: one of the tied top stakers; bound by the observation
       dustTo == IF NIsZero(sp.dust) \/ sp.top = {} THEN "" ELSE
-                LET fit == {d \in sp.top : NAdd(b13[d]["PEG"], sp.dust) = O.bal[d]["PEG"]}
+                LET fit == IF O.self THEN {} ELSE {d \in sp.top : NAdd(b13[d]["PEG"], sp.dust) = O.bal[d]["PEG"]}
                 IN  IF fit # {} THEN CHOOSE d \in fit : TRUE ELSE CHOOSE d \in sp.top : TRUE
       bFin == IF dustTo = "" THEN b13 ELSE Credit(b13, dustTo, "PEG", sp.dust)
       \* statuses that changed although the entry was not up for consideration in this block
-      stray == {x \in DOMAIN O.exec : x \notin acc3.visited /\ O.exec[x] # StatusOf(S.st, x)}
+      stray == IF O.self THEN {} ELSE {x \in DOMAIN O.exec : x \notin acc3.visited /\ O.exec[x] # StatusOf(S.st, x)}
       sIss == {Issue("C07", <<"status changed outside the block that must consider the batch", x, h, O.exec[x]>>) : x \in stray}
               \cup (IF ~ratedNow /\ \E x \in stray : O.exec[x] = h
                       THEN {Issue("C12", <<"pending conversion executed in a block without rates", h>>)} ELSE {})
